@@ -631,7 +631,7 @@ void h_same_block(void)
     static char mem[8];
     cstl_shared_ptr_t e, n, sp;
     cstl_weak_ptr_t w;
-    size_t hard = (vf_w_hard = nondet_size_t()), soft = (vf_w_soft = nondet_size_t());
+    size_t hard = VF_IN_SIZE(hard), soft = VF_IN_SIZE(soft);
     __CPROVER_assume(2 <= hard && hard < soft && soft < CNT_MAX - 2);
     HARD(&blk) = hard; SOFT(&blk) = soft;
     atomic_flag_clear(&blk.ref.lock);
@@ -677,6 +677,7 @@ static vf_blk_t * vf_nat_build(void)
 {
     size_t i;
     VF_IN_SIZE(hard); VF_IN_SIZE(soft); VF_IN_SIZE(sz); VF_IN_BOOL(has_clr);
+    if (vf_w_sz == 0) vf_w_sz = 8;       /* harnesses that do not name a size */
     VF_ASSUME(vf_w_hard <= vf_w_soft && vf_w_soft >= 1 && vf_w_soft < NMAX && vf_w_sz >= 1 && vf_w_sz <= 4096);
     for (i = 0; i < NMAX; i++) { cstl_shared_ptr_init(&vf_sp[i]); cstl_weak_ptr_init(&vf_wp[i]); }
     cstl_shared_ptr_alloc(&vf_sp[0], vf_w_sz, vf_w_has_clr ? vf_nclr_cb : NULL);
